@@ -25,7 +25,15 @@ from .http_responder import Stub
 
 REQT = "hio.core.http.serving:Requestant"
 HTTPING = "hio.core.http.httping"
+RESP = "hio.core.http.clienting:Respondent"
 FIELD_TYPES.setdefault(REQT, {}).update({"bodied": "bool", "closed": "bool", "chunked": "bool", "headed": "bool"})
+FIELD_TYPES.setdefault(RESP, {}).update({"bodied": "bool", "closed": "bool", "chunked": "bool", "headed": "bool"})
+CUR = {"cls": REQT}
+
+
+def CLS():
+    """the parser class the shared contract bodies below are applied to (server-side Requestant or client-side Respondent)"""
+    return CUR["cls"]
 
 
 class ChunkGen:
@@ -73,8 +81,9 @@ def setup(B, mode):
     length = None
     if mode == "length":
         length = B.int("length")
-    self = B.obj(REQT, hint="requestant", msg=msg, body=B.buf(hint="oldbody"), length=length, parms=None, trails=None,
-                 chunked=(mode == "chunked"))
+    extra = dict(evented=False, eventSource=None, retry=None, leid=None) if CLS() == RESP else {}
+    self = B.obj(CLS(), hint="parsent", msg=msg, body=B.buf(hint="oldbody"), length=length, parms=None, trails=None,
+                 chunked=(mode == "chunked"), **extra)
     return self, msg, length, log
 
 
@@ -107,11 +116,11 @@ def parse_body_length(B):
         marks["stream"] = ctx.fresh("bytes", "stream")
         ctx.st(msg)["v"] = marks["stream"]
         ctx.st(self)["closed"] = ctx.fresh("bool", "closed*")
-    B.loop(REQT + ".parseBody", 2, invariant=["inv_stream()"], modifies=[havoc])
+    B.loop(CLS() + ".parseBody", 2, invariant=["inv_stream()"], modifies=[havoc])
     yields = []
     bodied0 = z(ctx.st(self)["bodied"])
     oldbody = ctx.st(self)["body"]
-    B.call(self, qual=REQT + ".parseBody", yield_handler=yield_handler(B, self, msg, yields))
+    B.call(self, qual=CLS() + ".parseBody", yield_handler=yield_handler(B, self, msg, yields))
     st = ctx.st(self)
     from pyvc import source
     if B.raised():
@@ -159,9 +168,9 @@ def parse_body_chunked(B):
         ctx.st(self)["closed"] = ctx.fresh("bool", "closed*")
         ctx.st(msg)["v"] = ctx.fresh("bytes", "msg*")
         g["in_loop"] = True
-    B.loop(REQT + ".parseBody", 0, invariant=["inv_acc()"], modifies=[havoc])
+    B.loop(CLS() + ".parseBody", 0, invariant=["inv_acc()"], modifies=[havoc])
     yields = []
-    B.call(self, qual=REQT + ".parseBody", yield_handler=yield_handler(B, self, msg, yields))
+    B.call(self, qual=CLS() + ".parseBody", yield_handler=yield_handler(B, self, msg, yields))
     st = ctx.st(self)
     from pyvc import source
     if B.raised():
@@ -185,7 +194,7 @@ def parse_body_nolength(B):
     self, msg, length, log = setup(B, "none")
     msg0 = ctx.st(msg)["v"]
     bodied0 = z(ctx.st(self)["bodied"])
-    B.call(self, qual=REQT + ".parseBody", yield_handler=yield_handler(B, self, msg, []))
+    B.call(self, qual=CLS() + ".parseBody", yield_handler=yield_handler(B, self, msg, []))
     from pyvc import source
     if B.raised():
         B.handled = True
@@ -195,3 +204,74 @@ def parse_body_nolength(B):
         return
     B.no_other_exception()
     B.prove("otherwise-only-an-already-parsed-body-returns", z3.And(bodied0, z3.BoolVal(B.returned())), top=True)
+
+
+# ------------------------------------------------------------------------------------------------ client side (Respondent)
+
+def _as_client(fn):
+    def run(B):
+        CUR["cls"] = RESP
+        try:
+            return fn(B)
+        finally:
+            CUR["cls"] = REQT
+    return run
+
+
+@contract(RESP + ".parseBody", props=["C13", "C19"], name=RESP + ".parseBody[content-length; any fragmentation]", z3_ms=3000)
+def client_parse_body_length(B):
+    _as_client(parse_body_length)(B)
+
+
+@contract(RESP + ".parseBody", props=["C13", "C17", "C19"], name=RESP + ".parseBody[chunked, not an event stream; any number of chunks]", z3_ms=3000)
+def client_parse_body_chunked(B):
+    _as_client(parse_body_chunked)(B)
+
+
+@contract(RESP + ".parseBody", props=["C13", "C19"], name=RESP + ".parseBody[no length: until the connection closes]", z3_ms=3000)
+def client_parse_body_until_close(B):
+    """neither chunked nor a declared length (not an event stream): the body is everything received until the server closes,
+    in order, nothing left in the buffer; it ends (yield True) only after the close"""
+    CUR["cls"] = RESP
+    try:
+        ctx = B.ctx
+        g = ctx.ghost
+        self, msg, length, log = setup(B, "none")
+        g["all"] = ctx.st(msg)["v"]                  # ghost: every byte received so far, in order
+        g["taken"] = b""
+
+        def inv(c):
+            body = z(BI.as_text(c, ctx.st(self)["body"]))
+            return mk(z3.Concat(body, z(ctx.st(msg)["v"])) == z(g["all"]), "bool")
+        B.prog.spec_env["inv_all"] = ModelFn(lambda c, a, k: inv(c), "spec:inv_all")
+
+        def havoc(interp, fr):
+            body = ctx.st(self)["body"]
+            ctx.st(body)["v"] = ctx.fresh("bytes", "body*")
+            ctx.st(msg)["v"] = ctx.fresh("bytes", "msg*")
+            g["all"] = ctx.fresh("bytes", "all*")
+            ctx.st(self)["closed"] = ctx.fresh("bool", "closed*")
+        B.loop(RESP + ".parseBody", 3, invariant=["inv_all()"], modifies=[havoc])
+        yields = []
+
+        def on_yield(interp, fr, e, v):
+            yields.append(v)
+            if v is None:
+                more = ctx.fresh("bytes", "arrived")
+                ctx.st(msg)["v"] = E.binop(ctx, __import__("ast").Add(), ctx.st(msg)["v"], more)
+                g["all"] = E.binop(ctx, __import__("ast").Add(), g["all"], more)
+                ctx.st(self)["closed"] = ctx.fresh("bool", "closed'")
+                return None
+            raise Suspend(v, e)
+        B.call(self, qual=RESP + ".parseBody", yield_handler=on_yield)
+        B.no_other_exception()
+        if B.returned() or B.raised():
+            return
+        st = ctx.st(self)
+        body = z(BI.as_text(ctx, st["body"]))
+        B.prove("body-is-everything-received-in-order", body == z(g["all"]), top=True)
+        B.prove("nothing-left-in-the-buffer-and-the-connection-is-closed", z3.And(z3.Length(z(ctx.st(msg)["v"])) == 0, z(st["closed"])), top=True)
+        B.prove("length-and-bodied-set", z3.And(z(st["length"], "int") == z3.Length(body), z(st["bodied"])), top=True)
+        B.prove("ends-with-yield-True", yields[-1] is True, top=True)
+    finally:
+        CUR["cls"] = REQT
